@@ -286,6 +286,16 @@ class Renderer:
             if step.get("settled_time", True):
                 self.defn["settledTime"] = iso(self.pt)
             with_def = True
+        elif k == "reopen":
+            # data for a closed market arrives again
+            self.defn["status"] = step.get("status", "OPEN")
+            self.defn["version"] += 1
+            self.defn.pop("settledTime", None)
+            for r in self.defn["runners"]:
+                if r["status"] != "REMOVED":
+                    r["status"] = "ACTIVE"
+            self.defn["numberOfActiveRunners"] = sum(1 for x in self.defn["runners"] if x["status"] == "ACTIVE")
+            with_def = True
         elif k == "def":
             self.defn.update(step.get("set", {}))
             with_def = True
